@@ -511,7 +511,7 @@ def run(rep, tier="quick", srcdir=None, only=None):
 
 
 MANIFEST = {
-    "technique": "dominance / value-identity ownership rules, who-may-write census and overflow-guard rules over the LLVM IR of data.c",
+    "technique": "dominance / value-identity ownership rules, who-may-write census and overflow-guard rules over the LLVM IR of data.c + concrete evaluation of the entry-point case splits (subrange offset/length grid) and path rules on destructor / returned-object obligations",
     "level": "memory-safety and ownership skeleton only: clamp form and domination, returned-object retention (same object), record-origin translation on "
              "every descent, closed writer set of the record table and closed caller set of the buffer destructor, checked allocation sizes. The byte-string "
              "algebra (which bytes each operation denotes for every tree) is a functional-correctness statement over recursive data and is NOT decided",
